@@ -386,6 +386,19 @@ int fiber_sleep(uint32_t seconds, uint32_t useconds) {
 
   fiber_spinlock_lock(&sleep_spinlock);
 
+#if defined(__linux__)
+  // timer_trigger_count only advances when some thread polls for events. If
+  // every thread has been busy for a few ticks the count is stale, and a
+  // deadline computed from it is overtaken by the next (coalesced) timer read:
+  // the fiber would be woken before the requested time has passed. Account for
+  // the ticks that have already expired before computing the deadline.
+  uint64_t expired_ticks = 0;
+  if (fibershim_read(timer_fd, &expired_ticks, sizeof(expired_ticks)) ==
+      sizeof(expired_ticks)) {
+    timer_trigger_count += expired_ticks;
+  }
+#endif
+
   const uint64_t wake_time = timer_trigger_count + sleep_ms;
   wake_info.wake_time = wake_time;
   waiter_insert(&sleepers, &wake_info);
